@@ -270,6 +270,23 @@ def r6(chk, ctx):
                key="%s | orphan deletion and acknowledge under different guards" % lo.qname, where=td.line(dele[0]), message="")
 
 
+def r7(chk, ctx):
+    """engine-internal publishes are issued before the handler returns (never deferred with threadsafe)"""
+    n = 0
+    for mn in ("state_engine", "task_dispatcher"):
+        m = ctx.mod(mn)
+        for q, f in m.funcs.items():
+            for c in body_nodes(f):
+                if isinstance(c, ast.Call) and last(callname(c)) == "publish" and "event_dispatcher" in callname(c):
+                    n += 1
+                    ts = kwarg(c, "threadsafe", 1)
+                    ok = ts is None or (isinstance(ts, ast.Constant) and ts.value is False)
+                    chk.ob("C03.R7", "%s: publish is immediate (not threadsafe-deferred)" % q, ok, norm(c),
+                           key="%s | publish deferred past the handler (`%s`)" % (q, short(c, 60)), where=m.line(c),
+                           message="a deferred publish runs after the handler has acknowledged its event: a crash in between loses the successor/child start; a positional second argument of publish is `threadsafe`, not `use_shared_queue`")
+    chk.floor("C03.R7", n, 5, "engine-internal publish sites")
+
+
 def run(chk, ctx):
     p = ctx.protocol()
     proto_findings(chk, p, {"C03.R1", "C03.R1b", "C03.R2", "C18.R4"}, func_filter=lambda r: r["rule"] != "C18.R4" or True)
@@ -279,8 +296,10 @@ def run(chk, ctx):
     r4(chk, ctx)
     r5(chk, ctx)
     r6(chk, ctx)
-    from . import c05
+    from . import c05, c06
     c05.r2(chk, ctx, p, ctx.mod("state_engine"))
+    c06.r4(chk, ctx, p, ctx.mod("state_engine"))     # drain clause: join state / held events released exactly when nothing is pending
+    r7(chk, ctx)
     chk.assume("the broker redelivers unacknowledged messages (trusted)")
     chk.assume("engine-internal calls do not raise; exception edges come from the may-raise table of sa/flow.py")
     chk.assume("an uncaught exception in a timer/reply callback is not acknowledged by anybody (C18.R4 findings are therefore also C03 findings)")
